@@ -138,13 +138,13 @@ def key_conc(pid, c):
             return "future.flag-race"
         return "conc.race." + (f[1] if len(f) > 1 else "?")
     if f[:2] == ["hist", "a"]:
-        if c.go.startswith("HANG"):
+        if c.go.startswith("BLOCKED"):
             if re.search(r"s(\d+)@\1\b", c.payload):
                 return "swap.self-deref"
             return "swap.crossed"
         return "atom.history-not-linearizable"
     if f[:2] == ["hist", "f"]:
-        if c.go.startswith("HANG"):
+        if c.go.startswith("BLOCKED"):
             return "future.blocked"
         toks = c.payload.split()
         if any(t.startswith("C") for t in toks):
